@@ -103,13 +103,41 @@ def stage_judge_sql(run, resfile, prop, name="judge_sql", keep=False):
         c = json.loads(line)
         run.add_sample({"kind": "query rendered and read back by PostgreSQL's parser", "q": c["q"], "inline_sql": c["inline"]["text"],
                         "param_sql": c["param"]["text"], "params": [p["text"] for p in c["param"]["params"]], "ast": c["inline"]["read"]["ast"]})
-    j, vfiles, d = run.judge(name, "JudgeSql", prop, resfile, unit=400, keep=keep)
+    j, vfiles, d = run.judge(name, "JudgeSql", prop, resfile, unit=400, keep=True)
     run.traces += j["judged"]
     run.distinct += j["judged"]
     run.stage(name, prop=prop, cases_judged=j["judged"], failures=j["failures"], known=j["known"], secs=j["secs"], jvms=j["jvms"],
               render_model_predicted=j.get("render_predicted", 0), render_model_drift=j.get("render_drift", 0))
+    # the generator's case of every failure travels in its replay recipe (without what the recorder observed)
+    wanted, cases = set(), {}
+    for vf in vfiles:
+        for l in open(vf):
+            if l.strip():
+                wanted.add(json.loads(l).get("id"))
+    if wanted:
+        for l in open(resfile):
+            c = json.loads(l)
+            if c.get("id") in wanted:
+                cases[c["id"]] = {k: v for k, v in c.items() if k not in ("inline", "param", "parse", "tree", "alt_param")}
+    if not keep:
+        os.remove(resfile)
     if j.get("render_drift", 0):
         run.drift.append({"stage": name, "what": "SQL text or parameters differ from the driver model Render.tla for %d cases" % j["render_drift"],
                           "examples": j.get("drift_examples", [])[:3]})
     for vf in vfiles:
-        run.add_verdicts(vf, lambda v: {"pipeline": "sqlcase", "casefile": None, "q": v.get("q"), "prop": prop})
+        run.add_verdicts(vf, lambda v: {"pipeline": "sqlcase", "case": cases.get(v.get("id")), "q": v.get("q"), "prop": prop})
+
+
+def replay_sqlcase(run, rp):
+    if not rp.get("case"):
+        raise Broken("replay: the recipe carries no case")
+    sub = Run(run.prop, run.tier, run.seed, replay=True)
+    sub.work = run.sub("replay_%d" % len(os.listdir(run.work)))
+    cf = os.path.join(sub.work, "one.ndjson")
+    open(cf, "w").write(json.dumps(rp["case"]) + "\n")
+    res = stage_sql_cases(sub, cf)
+    stage_judge_sql(sub, res, rp["prop"])
+    return bool(sub.failures) or bool(sub.known)
+
+
+REPLAYERS["sqlcase"] = replay_sqlcase
